@@ -447,7 +447,6 @@ func writeFile(fset *token.FileSet, name string, f *ast.File) {
 	}
 }
 
-
 func countComm(sel *ast.SelectStmt) int {
 	n := 0
 	for _, cl := range sel.Body.List {
